@@ -391,3 +391,76 @@ func VerifC09_DeleteCond(h *zz.H) {
 	h.Assert(c09SameSet(m, m.liveFlags(), r1), "C09: after DeleteConditional exactly the other leaves remain")
 	h.Assert(c09SameSet(m, m.liveFlags(), r2), "C09: after WalkDeleted exactly the other leaves remain")
 }
+
+// VerifC09_Scale: the same map discipline at scale — N concrete leaves (so the size costs no
+// forks) at depths 1..3 under a handful of branches, one symbolic wildcard query/delete, one
+// symbolic re-add: Walk/Query/WalkSorted/Delete/Add agree with the model also where thresholds,
+// caching or batching set in only once the tree has grown.
+func VerifC09_Scale(h *zz.H) {
+	t := &Tree{}
+	m := &c09Model{}
+	N := h.Param("N", 60)
+	name := func(pfx string, i int) string {
+		return pfx + string(rune('a'+i/26)) + string(rune('a'+i%26))
+	}
+	var paths [][]string
+	for i := 0; i < N; i++ {
+		var p []string
+		switch i % 3 {
+		case 0:
+			p = []string{name("l", i)}
+		case 1:
+			p = []string{"b1", name("m", i)}
+		default:
+			p = []string{"b2", name("c", i%5), name("n", i)}
+		}
+		paths = append(paths, p)
+		h.Assert(t.Add(p, int64(i)) == nil, "C09: Add of a fresh path succeeds")
+		m.add(p, int64(i))
+	}
+	var got []c09Leaf
+	t.Walk(c09Collect(&got))
+	h.Assert(len(got) == N && c09SameSet(m, m.liveFlags(), got), "C09: Walk reports exactly the stored leaves, each once")
+	// a query chosen among: everything, one branch, one sub-branch, one leaf, leaf/*
+	i := h.Range("pick", 0, N-1)
+	qs := [][]string{{"*"}, {"b1"}, {"b2", "*"}, {"b2", name("c", i%5)}, paths[i], append(append([]string{}, paths[i]...), "*")}
+	q := qs[h.Range("query", 0, len(qs)-1)]
+	var seen []c09Leaf
+	t.Query(q, c09Collect(&seen))
+	want := make([]bool, len(m.ents))
+	for k, e := range m.ents {
+		want[k] = e.live && c09Match(q, e.p)
+	}
+	h.Assert(c09SameSet(m, want, seen), "C09: Query reports exactly the stored matching leaves, each once")
+	var sorted []c09Leaf
+	t.WalkSorted(c09Collect(&sorted))
+	ok := len(sorted) == N
+	for k := 1; k < len(sorted); k++ {
+		ok = ok && c09Less(sorted[k-1].p, sorted[k].p)
+	}
+	h.Assert(ok, "C09: WalkSorted is in strictly increasing lexicographic order")
+	// delete what the query matched, then re-add one of the removed leaves and one new leaf
+	removed := t.Delete(q)
+	flags := m.del(q, false, 0)
+	nrm := 0
+	for _, f := range flags {
+		if f {
+			nrm++
+		}
+	}
+	h.Assert(len(removed) == nrm, "C09: Delete removes and returns exactly the paths Query reports")
+	got = nil
+	t.Walk(c09Collect(&got))
+	h.Assert(c09SameSet(m, m.liveFlags(), got), "C09: after Delete exactly the other leaves remain")
+	if flags[i] {
+		h.Assert(t.Add(paths[i], int64(1000)) == nil, "C09: a deleted path can be added again")
+		m.add(paths[i], 1000)
+	}
+	h.Assert(t.Add([]string{"b3", "fresh"}, int64(1001)) == nil, "C09: Add of a fresh path succeeds")
+	m.add([]string{"b3", "fresh"}, 1001)
+	got = nil
+	t.Walk(c09Collect(&got))
+	h.Assert(c09SameSet(m, m.liveFlags(), got), "C09: Walk reports exactly the stored leaves, each once")
+	v := t.GetLeafValue(paths[(i+1)%N])
+	h.Assert((v != nil) == !flags[(i+1)%N], "C09: GetLeafValue is non-nil exactly for stored leaves")
+}
